@@ -6,6 +6,7 @@ package simctx
 
 import (
 	"context"
+	"os"
 	"runtime"
 	"runtime/debug"
 	"runtime/metrics"
@@ -54,6 +55,12 @@ func StartMemoryMonitor(limitBytes uint64) {
 			time.Sleep(5 * time.Millisecond)
 			metrics.Read(sample)
 			heap := sample[0].Value.Uint64()
+			if heap > 24*limitBytes {
+				// a single native instruction is blowing the heap up between polls: nothing cooperative
+				// can stop it, and the sandbox has no memory limit of its own
+				println("verifsim: heap", heap>>20, "MB, far beyond the memory-pressure limit; exiting (infrastructure, exit 3)")
+				os.Exit(3)
+			}
 			switch {
 			case heap > limitBytes:
 				if !memPressure.Swap(true) {
